@@ -15,6 +15,7 @@ import (
 	"sync/atomic"
 	"time"
 
+	gctx "github.com/acquirecloud/golibs/context"
 	"github.com/acquirecloud/golibs/container/iterable"
 	"github.com/acquirecloud/golibs/errors"
 	"github.com/acquirecloud/golibs/kvs"
@@ -290,6 +291,37 @@ func (s *lockSys) close() {
 
 // ---- commands ------------------------------------------------------------------------
 
+var errLockCallerGone = stderrors.New("harness: the caller lost interest")
+
+// lockCtxOfFlavor: the contexts callers hand to TryLock / LockWithCtx are not all of the standard library's making.
+// 0: context.WithCancel; 1: the library's own WithCancelError below a LIVE cancellable parent, ended with nil (its Err is
+// of the ErrClosed class); 2: the same, ended with an error of the caller's; 3: the library's WrapChannel around a channel
+// that gets closed (ErrClosed class again).  Whatever the flavour: a context that is done means the attempt is given up,
+// its error is what LockWithCtx returns, and nothing of the attempt stays behind.
+func lockCtxOfFlavor(f int) (context.Context, context.CancelFunc) {
+	switch f {
+	case 1, 2:
+		parent, pcancel := context.WithCancel(context.Background())
+		c, cf := gctx.WithCancelError(parent)
+		var once sync.Once
+		return c, func() {
+			once.Do(func() {
+				if f == 1 {
+					cf(nil)
+				} else {
+					cf(errLockCallerGone)
+				}
+				time.AfterFunc(5*time.Second, pcancel) // the parent lives on for a while (it must not matter)
+			})
+		}
+	case 3:
+		ch := make(chan struct{})
+		var once sync.Once
+		return gctx.WrapChannel(ch), func() { once.Do(func() { close(ch) }) }
+	}
+	return context.WithCancel(context.Background())
+}
+
 func classifyLockErr(err error) string {
 	switch {
 	case err == nil:
@@ -311,9 +343,9 @@ func (s *lockSys) cmdStart(pid int, kind string) bool {
 		s.mu.Unlock()
 		return false
 	}
-	ctx, cancel := context.WithCancel(context.Background())
-	p.inCall, p.kind, p.cancel, p.acquired = true, kind, cancel, false
 	p.calls++
+	ctx, cancel := lockCtxOfFlavor((pid + p.calls) % 4)
+	p.inCall, p.kind, p.cancel, p.acquired = true, kind, cancel, false
 	late := s.provDown[s.provOf[p.locker-1]-1]
 	s.ev(map[string]any{"e": "call", "p": pid, "kind": kind, "late": late})
 	s.mu.Unlock()
@@ -331,7 +363,12 @@ func (s *lockSys) cmdStart(pid int, kind string) bool {
 					res = "false"
 				}
 			default:
-				res = classifyLockErr(l.LockWithCtx(ctx))
+				err := l.LockWithCtx(ctx)
+				if ce := ctx.Err(); err != nil && ce != nil && (err == ce || err.Error() == ce.Error()) {
+					res = "ctxerr" // the context's own error, whatever class it is of
+				} else {
+					res = classifyLockErr(err)
+				}
 			}
 		})
 		if panicked {
